@@ -592,7 +592,7 @@ def gen_value(spec, ty, rng, edge=None, budget=None):
     number of leaves still allowed (keeps the generated fill code small); once
     it is used up lists take their minimum size and OPTIONAL members are absent."""
     if budget is None:
-        budget = [5000]
+        budget = [6000]
     budget[0] -= 1
     if budget[0] <= 0 and edge != 'lo':
         edge = 'lo'
@@ -618,12 +618,13 @@ def gen_value(spec, ty, rng, edge=None, budget=None):
         return rng.randint(t.lo, t.hi)
     if k == 'octets':
         n = t.lo if edge == 'lo' else t.hi if edge == 'hi' else rng.choice([t.lo, t.hi, rng.randint(t.lo, t.hi)])
+        budget[0] -= n // 8
         x = rng.random()
         if x < .1:
             return bytes(n)
         if x < .2:
             return b'\xff' * n
-        return bytes(rng.randrange(256) for _ in range(n))
+        return rng.getrandbits(8 * n).to_bytes(n, 'big') if n else b''
     if k == 'bits':
         v = 0 if edge == 'lo' else 2 ** t.n - 1 if edge == 'hi' else rng.getrandbits(t.n)
         if edge is None and rng.random() < .2:
